@@ -146,10 +146,32 @@ theorem stored_attributes (gt : String) (finite : α → Bool) (dbl : Bool) (cas
 graphic type, a closed polygon, rows of different widths, a width other than 2 or 3, or a non-finite
 coordinate — each makes the constructor fail. -/
 theorem malformed_rejected (gt : String) (finite : α → Bool) (dbl : Bool) (cast : α → α) (gd : GData α)
-    (h : ¬ ∃ c, Valid gt finite cast gd c) : ∃ e, construct gt finite dbl cast gd = .error e := by
+    (h : ¬ ∃ c, Valid gt finite cast gd c) : construct gt finite dbl cast gd = .error .value := by
   cases hc : encode gt finite dbl cast gd with
-  | error e => exact ⟨e, by simp [construct, hc]⟩
+  | error e =>
+    have := encode_error_value gt finite dbl cast gd e hc
+    subst this
+    simp [construct, hc]
   | ok r => exact absurd (encode_ok_valid gt finite dbl cast gd r hc) h
+
+/-- acceptance is exactly validity: the constructor either accepts (valid input) or raises ValueError -/
+theorem accepted_iff_valid (gt : String) (finite : α → Bool) (dbl : Bool) (cast : α → α) (gd : GData α) :
+    ((∃ g, construct gt finite dbl cast gd = .ok g) ↔ ∃ c, Valid gt finite cast gd c) ∧
+    ((¬ ∃ g, construct gt finite dbl cast gd = .ok g) → construct gt finite dbl cast gd = .error .value) := by
+  constructor
+  · constructor
+    · rintro ⟨g, hg⟩
+      by_cases hv : ∃ c, Valid gt finite cast gd c
+      · exact hv
+      · rw [malformed_rejected gt finite dbl cast gd hv] at hg; cases hg
+    · rintro ⟨c, v⟩
+      obtain ⟨g, hg, _⟩ := graphic_data_roundtrip gt finite dbl cast gd c v
+      exact ⟨g, hg⟩
+  · intro hn
+    apply malformed_rejected
+    rintro ⟨c, v⟩
+    obtain ⟨g, hg, _⟩ := graphic_data_roundtrip gt finite dbl cast gd c v
+    exact hn ⟨g, hg⟩
 
 /-- wrong number of points for the graphic type (POINT ≠ 1, RECTANGLE / ELLIPSE ≠ 4, POLYLINE < 2,
 POLYGON < 3) or a closed polygon, in any annotation: ValueError -/
@@ -175,7 +197,7 @@ theorem malformed_rejected_closed_polygon (finite : α → Bool) (dbl : Bool) (c
 /-- a non-finite coordinate anywhere is refused -/
 theorem malformed_rejected_non_finite (gt : String) (finite : α → Bool) (dbl : Bool) (cast : α → α) (gd : GData α)
     (a : Annot α) (ha : a ∈ gd) (r : Row α) (hr : r ∈ a) (x : α) (hx : x ∈ r) (hbad : finite (cast x) = false) :
-    ∃ e, construct gt finite dbl cast gd = .error e := by
+    construct gt finite dbl cast gd = .error .value := by
   apply malformed_rejected
   rintro ⟨c, v⟩
   have := v.fin a ha r hr x hx
@@ -186,7 +208,7 @@ theorem malformed_rejected_non_finite (gt : String) (finite : α → Bool) (dbl 
 theorem malformed_rejected_dimensions (gt : String) (finite : α → Bool) (dbl : Bool) (cast : α → α) (gd : GData α)
     (a : Annot α) (ha : a ∈ gd) (r : Row α) (hr : r ∈ a)
     (hbad : (r.length ≠ 2 ∧ r.length ≠ 3) ∨ ∃ a' ∈ gd, ∃ r' ∈ a', r'.length ≠ r.length) :
-    ∃ e, construct gt finite dbl cast gd = .error e := by
+    construct gt finite dbl cast gd = .error .value := by
   apply malformed_rejected
   rintro ⟨c, v⟩
   have hc := v.width a ha r hr
